@@ -88,6 +88,49 @@ def run(ctx):
                 errs.append(f"record(s) {missing} have no object in the cache AGP (last object end cannot equal the record length)")
             if errs:
                 ctx.out.oracle_fail("fasta-cache-agp", inp, "cache AGP is not coordinate-valid: " + errs[0])
+    # FASTA + AGP companion written by pretext_to_asm.write_assembly: AGP last object end = FASTA record length
+    from tola.assembly.scripts.pretext_to_asm import write_assembly
+    from tola.assembly.assembly import Assembly
+    from tola.fasta.index import FastaIndex, FastaInfo
+    with F.Scratch() as sc:
+        for i in range(40 * n):
+            recs = F.rand_records(rng)
+            wi = rng.choice([7, 60, rng.randint(1, 70)])
+            data = F.render(recs, wi)
+            idx, _ = F.expected_index(recs, wi)
+            bs = rng.choice([1, 2, 3, 5, 7, 16, 250000])
+            gaps = [0, 1, bs, 2 * bs, 3 * bs, bs + 1, 200] if bs <= 16 else [0, 1, 200]
+            scs = F.rand_scaffolds_over(rng, recs, zero_strand=0.0, big_gaps=gaps)
+            for s_ in scs:
+                # an output scaffold neither starts nor ends with a gap in the tools' own outputs, but nothing forbids it
+                pass
+            p = sc.path / f"w{i}.fa"; p.write_bytes(data)
+            fai = FastaIndex(p, bs)
+            fai.index = {r[0]: FastaInfo(r[1], r[2], r[3], r[4]) for r in idx}
+            outp = sc.path / f"o{i}.fa"
+            inp = {"fasta": data.decode("latin-1"), "scaffolds": scs, "bs": bs, "source": "write_assembly-FASTA"}
+            ctx.out.case("fasta-with-agp", inp, ("fa+agp", min(bs, 20), len(scs)))
+            try:
+                write_assembly(fai, Assembly("x", scaffolds=[conv.to_real_scaffold(s_) for s_ in scs]), outp, "FASTA", True)
+            except BaseException as e:
+                ctx.out.oracle_fail("fasta-with-agp", inp, f"write_assembly failed: {conv.errkind(e)}")
+                continue
+            finally:
+                try:
+                    fai.fasta_fileandle.close()
+                except Exception:
+                    pass
+            import gc; gc.collect()
+            agp = outp.with_suffix(".agp")
+            recl, cur = {}, None
+            for l in outp.read_bytes().split(b"\n"):
+                if l.startswith(b">"):
+                    cur = l[1:].decode(); recl[cur] = 0
+                elif cur is not None:
+                    recl[cur] += len(l)
+            errs = T.validate_agp_text(agp.read_text(), recl) if agp.exists() else ["no AGP written beside the FASTA"]
+            if errs:
+                ctx.out.oracle_fail("fasta-with-agp", inp, "AGP beside the FASTA: " + errs[0])
     # asm-format CLI
     from click.testing import CliRunner
     from tola.assembly.scripts.asm_format import cli
